@@ -51,6 +51,13 @@ def gen_history(rng, idx, concurrent):
         c = {"id": i + 1, "port": ports[i], "rec": None, "nreq": k, "fail": False, "pre": False, "late": None}
         if k == 0 and rng.random() < 0.5:
             c["extra"] = {"reset_after_connect": True}        # RST right after the handshake instead of FIN
+        if rng.random() < 0.25:
+            # the client bound its socket to another local address (the map is keyed by the port alone)
+            c.setdefault("extra", {})["local_ip"] = "127.0.0.%d" % rng.choice([2, 3, 77])
+        # requests that are answered locally for everybody (GET /provision), preferably the FIRST of the connection
+        c["prov"] = sorted({j for j in range(k) if rng.random() < (0.2 if j == 0 else 0.05)})
+        # requests in which the CLIENT supplies the proxy-owned claims header (claiming the opposite elevation)
+        c["spoof"] = sorted({j for j in range(k) if rng.random() < 0.2})
         if has_rec:
             c["rec"] = ids[nxt]
             nxt += 1
@@ -62,7 +69,7 @@ def gen_history(rng, idx, concurrent):
             ports[i + 1] = ports[i]
             c["late"] = (rng.randrange(k - 1), ids[nxt])          # after request j the kernel writes record ids[nxt]
             conns.append({"id": i + 2, "port": ports[i], "rec": ids[nxt], "nreq": rng.randint(1, 4), "fail": False,
-                          "pre": True, "late": None})
+                          "pre": True, "late": None, "prov": [], "spoof": [0]})
             nxt += 1
             i += 1
         i += 1
@@ -87,7 +94,7 @@ def to_scenario(h):
         accepted[c["port"]] = accepted.get(c["port"], 0) + 1
         reqs = []
         for j in range(c["nreq"]):
-            raw = http_request("GET", "/s%d/c%d/r%d?x=1" % (h["idx"], c["id"], j), [("Metadata", "true")])
+            raw = request_raw(h, c, j)
             after = []
             if j == 0 and not at_once:
                 after.append({"op": "snapshot", "label": c["id"]})
@@ -110,6 +117,16 @@ def to_scenario(h):
     sc = scenario({"c07": h["idx"]}, cs, concurrent=bool(at_once))
     sc.update(h.get("scenario_extra") or {})
     return sc
+
+
+def request_raw(h, c, j):
+    hs = [("Metadata", "true")]
+    if j in (c.get("spoof") or []):
+        own = IDENTITIES[c["rec"]][1] if c["rec"] is not None else 0
+        hs.append(("x-ms-azure-host-claims", '{ "isRoot": "%s"}' % ("false" if own else "true")))
+    if j in (c.get("prov") or []):
+        return http_request("GET", "/provision", hs)
+    return http_request("GET", "/s%d/c%d/r%d?x=1" % (h["idx"], c["id"], j), hs)
 
 
 def C(i, port, rec, nreq, fail=False, pre=False, late=None, **kw):
@@ -157,6 +174,13 @@ def choreographies():
         C(1, 3996, 6, 2), C(2, 3997, 10, 2), C(3, 3996, 6, 1), C(4, 3998, 11, 1), C(5, 3997, 7, 2), C(6, 3998, 11, 1)]})
     out.append({"idx": 910006, "concurrent": False, "conns": [
         C(1, 3996, 10, 1), C(2, 3997, 6, 2), C(3, 3996, 11, 1), C(4, 3998, 7, 1)]})
+    # (g) a recorded client bound to another local address, then the port reused from 127.0.0.1 without a record;
+    #     a recorded connection whose FIRST request is GET /provision, more requests, then the port reused;
+    #     a non-elevated connection whose client supplies an elevated claims header
+    out.append({"idx": 910008, "concurrent": False, "conns": [
+        C(1, 3980, 0, 2, extra={"local_ip": "127.0.0.2"}), C(2, 3980, None, 2),
+        C(3, 3981, 2, 3, prov=[0]), C(4, 3981, None, 1),
+        C(5, 3982, 1, 3, spoof=[1, 2]), C(6, 3983, 6, 2, spoof=[0]), C(7, 3982, None, 1, spoof=[0])]})
     # (f) more distinct users than any plausible user cache holds, then returning users: the user part of the identity
     #     of every connection is the one of ITS uid
     conns = [C(1, 5000, 1, 1, uid=e2e.NOBODY_UID), C(2, 5001, 1, 1, uid=1)]
@@ -288,7 +312,7 @@ def observe(h, r):
         for j in range(c["nreq"]):
             st = resp[j].get("status") if j < len(resp) else None
             tgt = "/s%d/c%d/r%d?x=1" % (h["idx"], c["id"], j)
-            seen = where.get(tgt, [])
+            seen = where.get(tgt, []) if j not in (c.get("prov") or []) else [x for x in where.get("/provision", [])][:0]
             ident = None
             if len(seen) == 1:
                 host, adm, _ = seen[0]
@@ -297,6 +321,16 @@ def observe(h, r):
                 ident = ("multiple", seen)
             obs[(c["id"], j)] = (st, ident)
     return obs
+
+
+def relayed_targets(r):
+    out = set()
+    for host in e2e.MOCKS:
+        for upc in e2e.upstream_messages(r, host):
+            for m in upc:
+                if m is not None and m.get("target"):
+                    out.add(m["target"])
+    return out
 
 
 def expected_obs(ctx_ident):
@@ -316,6 +350,10 @@ def property_check(h, r, obs):
     for c in h["conns"]:
         for j in range(c["nreq"]):
             st, ident = obs[(c["id"], j)]
+            if j in (c.get("prov") or []):
+                if "/provision" in relayed_targets(r):
+                    return "GET /provision (request %d on connection %d) was relayed to a host" % (j, c["id"])
+                continue            # answered locally for everybody: says nothing about the connection's identity
             if c["rec"] is not None and c["rec"] in DOWN_IDS:
                 # own record names a destination where nothing listens: attributed, answered 502, nothing relayed
                 if ident is not None or st != 502:
@@ -439,7 +477,8 @@ def run(ctx):
         # per request
         m_obs = {}
         for (c, j, x) in decided:
-            m_obs[(c, j)] = expected_obs(None if x is None else x[1])
+            cc = next(k for k in h["conns"] if k["id"] == c)
+            m_obs[(c, j)] = (200, None) if j in (cc.get("prov") or []) else expected_obs(None if x is None else x[1])
         if m_obs != obs:
             diff = {str(k): {"model": m_obs.get(k), "impl": obs.get(k)} for k in set(m_obs) | set(obs) if m_obs.get(k) != obs.get(k)}
             disagreements.append({"case": case, "model": "per-request context", "impl": diff})
